@@ -174,6 +174,7 @@ class Spec:
                   "process_scan_cost"):
             doc[k] = self.scan_costs[k]
         hc = {}
+        shared = {}
         for a, h in self.hosts.items():
             c = {"os": h["os"], "services": list(h["services"]),
                  "processes": list(h["processes"])}
@@ -186,6 +187,12 @@ class Spec:
                     c["value"] = self.sensitive[a]
             elif h["value"] != 0 or (explicit and style.get("zero_values")):
                 c["value"] = h["value"]
+            if style.get("share_identical_host_cfgs"):
+                # the same mapping object for identical configurations: the
+                # YAML emitter writes it once with an anchor and refers to
+                # it with aliases (&id001 / *id001)
+                key = repr(sorted(c.items(), key=lambda kv: kv[0]))
+                c = shared.setdefault(key, c)
             hc[str(a)] = c
         doc["host_configurations"] = hc
         doc["firewall"] = {str(k): list(v) for k, v in self.firewall.items()}
